@@ -9,7 +9,7 @@ use octseq::{Octets, OctetsBuilder};
 use tracing::warn;
 
 use crate::base::Message;
-use crate::base::iana::OptRcode;
+use crate::base::iana::{OptRcode, Rcode};
 use crate::base::message_builder::{
     AdditionalBuilder, OptBuilder, PushError,
 };
@@ -198,9 +198,28 @@ where
     RequestOctets: Octets,
     Target: Composer + Default,
 {
-    let mut additional = mk_builder_for_target()
-        .start_error(msg, rcode.rcode())
-        .additional();
+    // Like `MessageBuilder::start_error()` but echo at most the first
+    // question. Error responses are also sent without passing through the
+    // middleware that enforces the UDP response size limit (replies received
+    // as requests, service errors) and a request can carry any number of
+    // questions, so echoing all of them would let a hostile request decide
+    // the size of the error response.
+    let mut builder = mk_builder_for_target();
+    {
+        let header = builder.header_mut();
+        header.set_id(msg.header().id());
+        header.set_qr(true);
+        header.set_opcode(msg.header().opcode());
+        header.set_rd(msg.header().rd());
+        header.set_rcode(rcode.rcode());
+    }
+    let mut question = builder.question();
+    if let Some(Ok(item)) = msg.question().next() {
+        if question.push(item).is_err() {
+            question.header_mut().set_rcode(Rcode::SERVFAIL);
+        }
+    }
+    let mut additional = question.additional();
 
     // Note: if rcode is non-extended this will also correctly handle
     // setting the rcode in the main message header.
